@@ -30,8 +30,8 @@ class Loop:
 
 class Contract:
   def __init__(s,key,view,cases,modifies=(),returns=None,source_of_post='',loops=None,ghost=None,property_ids=(),trusted=False,
-               sample=None, build=None, note='', bounded=None, standin_inputs=None, refute_pins=None, call_effect=None, native=None, ghost_hooks=None, abstract_lists=(), ghost_init=None, exit_lemmas=(), native_post=None, json_args=None, opaque_methods=None, pure_methods=None, class_predicates=None, list_elems=None):
-    s.list_elems=list_elems or {}; s.native_post=native_post; s.json_args=json_args; s.opaque_methods=opaque_methods or {}; s.pure_methods=pure_methods or {}; s.class_predicates=class_predicates or {}
+               sample=None, build=None, note='', bounded=None, standin_inputs=None, refute_pins=None, call_effect=None, native=None, ghost_hooks=None, abstract_lists=(), ghost_init=None, exit_lemmas=(), native_post=None, json_args=None, opaque_methods=None, pure_methods=None, class_predicates=None, list_elems=None, region=None, opaque_attrs=False, pure_functions=()):
+    s.region=region; s.opaque_attrs=opaque_attrs; s.pure_functions=tuple(pure_functions); s.list_elems=list_elems or {}; s.native_post=native_post; s.json_args=json_args; s.opaque_methods=opaque_methods or {}; s.pure_methods=pure_methods or {}; s.class_predicates=class_predicates or {}
     s.key=key; s.file,s.qual=key.split('::'); s.view=view; s.cases=cases; s.modifies=list(modifies)
     s.returns=returns; s.source_of_post=source_of_post; s.loops=loops or {}; s.ghost=ghost or {}
     s.property_ids=tuple(property_ids); s.trusted=trusted; s.sample=sample; s.build=build; s.note=note
@@ -82,6 +82,7 @@ class Contract:
 class ModuleInfo:
   """the real source file, parsed at check time."""
   def __init__(s,relpath,reg):
+    s.reg=reg
     s.rel=relpath; s.path=os.path.join(reg.repo,relpath)
     s.src=open(s.path).read(); s.tree=ast.parse(s.src)
     s.functions={}; s.classes={}; s.globals={}
@@ -100,6 +101,23 @@ class ModuleInfo:
           s._index(getattr(n,fld,[]) or [],prefix)
         for h in getattr(n,'handlers',[]) or []: s._index(h.body,prefix)
   def function(s,qual):
+    if qual not in s.functions and '@' in qual:
+      # 'Class.func@name': a contiguous run of statements of the function (a region), extracted mechanically: from the first statement
+      # whose text starts with the contract's start text to the first following sibling whose text starts with its end text (exclusive)
+      base,name=qual.split('@',1); fn=s.function(base); start,end=s.reg.regions[(s.rel,qual)]
+      norm=lambda x: ' '.join(ast.unparse(x).split())
+      for node in ast.walk(fn):
+        for fld in ('body','orelse','finalbody'):
+          seq=getattr(node,fld,None)
+          if not isinstance(seq,list): continue
+          for i,x in enumerate(seq):
+            if isinstance(x,ast.stmt) and norm(x).startswith(start):
+              j=next((k for k in range(i+1,len(seq)) if norm(seq[k]).startswith(end)),None)
+              if j is None: continue
+              f=ast.FunctionDef(name=name,args=ast.arguments(posonlyargs=[],args=[],kwonlyargs=[],kw_defaults=[],defaults=[]),body=seq[i:j],decorator_list=[],returns=None,type_comment=None,type_params=[])
+              ast.copy_location(f,seq[i]); f.end_lineno=seq[j-1].end_lineno; ast.fix_missing_locations(f)
+              s.functions[qual]=f; return f
+      raise ToolError(f"cannot extract region {s.rel}::{qual}: statements '{start}' .. '{end}' not found")
     if qual not in s.functions:
       f=s._dict_entry(qual)
       if f is not None: s.functions[qual]=f
@@ -158,9 +176,11 @@ class GenModule:
 class Registry:
   def __init__(s,repo=REPO):
     s.repo=repo; s.contracts={}; s.modules={}; s.classes={}   # class name -> dict(file, slots, bases, exception)
-    s.handlers=[]; s.loop_handlers=[]; s.module_globals={}; s.gen_classes={}
+    s.handlers=[]; s.loop_handlers=[]; s.module_globals={}; s.gen_classes={}; s.regions={}
   def add(s,c):
-    c._reg=s; s.contracts[c.key]=c; return c
+    c._reg=s; s.contracts[c.key]=c
+    if getattr(c,'region',None): s.regions[(c.file,c.qual)]=c.region
+    return c
   def module(s,rel):
     if rel not in s.modules:
       m=ModuleInfo(rel,s); s.modules[rel]=m
